@@ -143,6 +143,24 @@ Lemma link_plain_forms :
   C11_Gen.plain_tx_QueryRowsPartial = plain_form "t" "QueryRowsPartial".
 Proof. repeat split; reflexivity. Qed.
 
+(* ---- orm.go keeps no state between calls (Model.fill_sequence): the column -> field mapping is recomputed
+   from the destination's own reflect.Value on every call. The call skeletons contain reflection and
+   mapping.Deref only - no cache lookup / store, no lock; a memo keyed by the type's name adds calls. ---- *)
+Lemma link_orm_stateless :
+  C11_Gen.taggedmap_skeleton =
+    ["v.Type"; "mapping.Deref"; "rt.NumField"; "make"; "rt.Field"; "parseTagName"; "len"; "return";
+     "reflect.Indirect(v).Field"; "valueField.Kind"; "valueField.CanInterface"; "return"; "valueField.IsNil";
+     "valueField.Type"; "mapping.Deref"; "reflect.New"; "valueField.Set"; "valueField.Interface";
+     "valueField.CanAddr"; "valueField.Addr().CanInterface"; "return"; "valueField.Addr().Interface"; "return"] /\
+  C11_Gen.unwrapfields_skeleton =
+    ["reflect.Indirect"; "indirect.NumField"; "indirect.Field"; "child.Kind"; "child.IsNil"; "child.Type";
+     "mapping.Deref"; "reflect.New"; "child.Set"; "reflect.Indirect"; "indirect.Type().Field"; "child.Kind";
+     "unwrapFields"; "append"; "append"; "return"] /\
+  List.length C11_Gen.mapstruct_skeleton = 24%nat /\
+  hd "" C11_Gen.mapstruct_skeleton = "unwrapFields" /\
+  nth 4 C11_Gen.mapstruct_skeleton "" = "getTaggedFieldValueMap".
+Proof. repeat split; reflexivity. Qed.
+
 (* ---- soundness of the executable checkers used by Exec.v ---- *)
 Lemma fkind_eqb_eq : forall a b, fkind_eqb a b = true <-> a = b.
 Proof. destruct a, b; simpl; split; intro H; try discriminate; reflexivity. Qed.
@@ -185,7 +203,7 @@ Lemma model_ok_tx_implies_spec_ok cached sw cx bound f b r cs runs seen :
   model_ok (CTx cached sw cx bound f b r cs None runs seen) = true ->
   spec_ok (CTx cached sw cx bound f b r cs None runs seen) = true.
 Proof.
-  unfold model_ok, spec_ok.
+  unfold model_ok, spec_ok, model_ok1, spec_ok1.
   assert (Hw : (if cached then cached_transact_ctx_with sw true cx bound f b else transact_ctx_with sw true cx bound f b)
                = transact sw f (body_under_ctx cx bound b)) by (destruct cached; reflexivity).
   assert (Hr : (if cached then cached_transact_ctx_runs true f else transact_ctx_runs true f) = transact_runs f)
@@ -203,7 +221,7 @@ Lemma model_ok_orm_tx_implies_tx_clause via m sh cols rows st ds r cs runs :
   model_ok (COrm via m sh cols rows st ds (Some (r, cs, false, runs))) = true ->
   tx_allowed no_faults (body_of_query st) r cs None runs = true.
 Proof.
-  unfold model_ok. destruct (run_query (rows_mode m) (strict_flag (recv_of via) m) sh cols rows) as [ds0 st0].
+  unfold model_ok, model_ok1. destruct (run_query (rows_mode m) (strict_flag (recv_of via) m) sh cols rows) as [ds0 st0].
   intro H. apply andb_true_iff in H as [H Ht]. apply andb_true_iff in H as [Hs _].
   assert (Hb : body_of_query st0 = body_of_query st).
   { destruct st0 as [[]|n|], st as [[]|n'|]; simpl in Hs; try discriminate; try reflexivity.
